@@ -5,6 +5,8 @@ import Resynth.Spec.TcpDecode
 import Resynth.Spec.Rfc791
 import Resynth.Spec.Tunnel
 import Resynth.Spec.Net
+import Resynth.Spec.Grammar
+import Resynth.Spec.Lexical
 /-!
 # Line-protocol driver over the model: one request per line, one response per line.
 Mirrors /verif/harness (which runs the real Rust code) request for request.
@@ -324,6 +326,37 @@ def cmdOracle (args : List String) : String :=
     | some frame =>
       let d := Spec.ipOfFrame (raw == "1") frame
       s!"ok ipok={Spec.ipv4Ok d} src={Spec.ipSrc d} dst={Spec.ipDst d} proto={Spec.ipProto d} id={Spec.ipId d} ttl={Spec.ipTtl d} off={Spec.ipFragOff d} evil={Spec.ipEvil d} df={Spec.ipDF d} mf={Spec.ipMF d} tcpok={Spec.l4Ok 6 d} udpok={Spec.l4Ok 17 d} udplen={Spec.udpLenOk d} udpcsum={Spec.udpCsumField d} sport={Spec.udpSrcPort d} dport={Spec.udpDstPort d} icmptype={Spec.u8At d 20} icmpid={Spec.u16At d 24} icmpseq={Spec.u16At d 26} icmpok={Spec.icmpEchoOk (Spec.u8At d 20) (Spec.u16At d 24) (Spec.u16At d 26) d} ethok={Spec.ethMatchesIp frame} ethbc={Spec.ethBroadcastMatchesIp frame} len={d.length}"
+  | "lex" :: lines =>
+    -- Spec.lexLine over the given lines, threading the pending string (format of `lexlines` without end=)
+    Id.run do
+      let mut pending := ""
+      let mut out := ""
+      let mut lno := 1
+      for a in lines do
+        match decodeHexStr a with
+        | none => return "bad-request"
+        | some ln =>
+          match Spec.lexLine lno pending ln with
+          | .error c => return out ++ s!"err {c}"
+          | .ok (toks, p) =>
+            out := out ++ "ok" ++ String.join (toks.map fun t => " " ++ fmtTok t) ++ " | "
+            pending := p
+            lno := lno + 1
+      return out
+  | "parse" :: toks =>
+    -- tokens as kind:line:col:texthex (what the real lexer produced); Spec.parse decides
+    let ts := toks.mapM fun t => match t.splitOn ":" with
+      | [k, l, c, h] => do
+        let kind ← TokKind.ofName k
+        let txt ← (ofHex h).bind utf8Decode
+        some (⟨kind, txt, ⟨← l.toNat?, ← c.toNat?⟩⟩ : Tok)
+      | _ => none
+    match ts with
+    | none => "bad-request"
+    | some ts =>
+      match Spec.parse ts with
+      | .ok ss => s!"ok {ts.length} {" ".intercalate (ss.map fmtStmt)}"
+      | .error i => s!"parseerr {i}"
   | ["frag", h] =>
     match (ofHex h).bind Spec.decodeFrag with
     | some f => s!"ok src={f.src} dst={f.dst} proto={f.proto} id={f.id} ttl={f.ttl} evil={f.evil} df={f.df} mf={f.mf} off={f.offset} data={hexOrDash f.data}"
